@@ -376,8 +376,94 @@ func refClientVsRealServer(c *mc.Ctx, t tuple, seed int64) {
 	checkFrames(c, "server", rs)
 }
 
+// sameParsedArgs: one parsed bridge line (either format) passed to Dial several
+// times, as base.ClientFactory allows; every dial interoperates with the
+// reference server (handshake accepted by it, data both ways).
+func sameParsedArgs(format string, iat int, seed int64) mc.Scenario {
+	return mc.Scenario{Name: fmt.Sprintf("same-parsed-args/%s/iat%d", format, iat), Run: func(c *mc.Ctx) {
+		br := o4h.NewBridge(seed, "c06-spa", iat, false)
+		o4h.SetBias(false)
+		rnd.Install(rnd.New(seed, "c06-real-spa-"+format))
+		var sum []string
+		res := sched.Run(c, sched.Options{NoPreempt: true, MaxSteps: 2_000_000}, func() {
+			s := sched.Cur()
+			pa, err := o4h.ParseArgs(br.ClientArgs(format, nil))
+			if err != nil {
+				fail(c, "setup", "setup", "%v", err)
+				return
+			}
+			for k := 0; k < 3; k++ {
+				cw, sw := wire.Pipe(fmt.Sprint("client", k), fmt.Sprint("server", k))
+				refRnd := rnd.New(seed, fmt.Sprint("c06-ref-spa-", format, k))
+				var rs *o4h.RefSession
+				var srvErr error
+				done := false
+				up, down := o4h.Pattern('C', k*100, 700), o4h.Pattern('S', k*100, 900)
+				s.Spawn(fmt.Sprint("ref-server", k), func() {
+					defer func() { done = true }()
+					rs, srvErr = o4h.RefServer(sw, br.ID, o4h.ServerOpts{PadLen: 30 + k, LenSeed: br.Seed}, refRnd)
+					if srvErr != nil {
+						sw.Close()
+						return
+					}
+					if srvErr = rs.RecvUntil(len(up)); srvErr != nil {
+						sw.Close()
+						return
+					}
+					srvErr = rs.Send(down, 7)
+					for {
+						if _, err := rs.RecvOnce(); err != nil {
+							break
+						}
+					}
+					sw.Close()
+				})
+				conn, dialErr := o4h.DialParsed(pa, cw)
+				var got []byte
+				var ioErr error
+				if dialErr == nil {
+					if _, ioErr = wire.WriteOwned(conn, up); ioErr == nil {
+						buf := make([]byte, 4096)
+						for len(got) < len(down) {
+							n, err := conn.Read(buf)
+							got = append(got, buf[:n]...)
+							if err != nil {
+								ioErr = err
+								break
+							}
+						}
+					}
+					conn.Close()
+				} else {
+					cw.Close()
+				}
+				s.Point(fmt.Sprint("ref-done", k), func() bool { return done })
+				sum = append(sum, fmt.Sprintf("%v/%v/%v/%d", dialErr, srvErr, ioErr, len(got)))
+				switch {
+				case dialErr != nil || srvErr != nil:
+					fail(c, "interop", "same-parsed-args/handshake", "dial %d with one parsed %s bridge line: Dial=%v reference server=%v", k+1, format, dialErr, srvErr)
+				case ioErr != nil || !bytes.Equal(got, down) || !bytes.Equal(rs.Payload, up):
+					fail(c, "interop", "same-parsed-args/stream", "dial %d with one parsed %s bridge line: client read %d/%d bytes (%v), reference server decoded %d/%d", k+1, format, len(got), len(down), ioErr, len(rs.Payload), len(up))
+				}
+				if c.Failed() {
+					return
+				}
+			}
+		})
+		if len(res.Panics) > 0 {
+			fail(c, "no-panic", "same-parsed-args/panic", "%s", res.Panics[0])
+		}
+		c.Observe("dials", fmt.Sprint(sum))
+	}}
+}
+
 func main() {
 	mc.Main("C06", func(cfg *mc.Config, emit func(mc.Scenario)) {
+		for _, format := range []string{"cert", "legacy"} {
+			for iat := 0; iat <= 2; iat++ {
+				emit(sameParsedArgs(format, iat, cfg.Seed))
+			}
+		}
 		K := 3
 		if cfg.Thorough() {
 			K = 10 // 10 identities x 11 bridge seeds
